@@ -1,11 +1,14 @@
 /-
-C12 — the look-ahead rule of the generator loop.
+C12 — the look-ahead rule of the generator loop, and `groups_sound`: blanking markers that are followed by a
+continuation line changes nothing in what the line-tracking parser reports but the text of those lines.
 -/
 import DebInspector.Props.C12
 import DebInspector.Proofs.Deb822
+import DebInspector.Proofs.LinesAscii
+import DebInspector.Proofs.StrLemmas
 
 namespace Props.C12
-open Py Model.Deb822
+open Py Model.Deb822 Proofs.Deb822 Proofs.LinesAscii
 
 /-- a continuation line is not a declaration line -/
 theorem cont_not_decl (l : Str) (h : isCont l = true) : isDecl l = false := Proofs.Deb822.cont_not_decl l h
@@ -35,5 +38,590 @@ example : holdsOn ⟨["License: GPL".toList, " text".toList, " .".toList, " more
   decide +kernel
 example : (model ⟨["License: GPL".toList, " .".toList, " .".toList, " more".toList], [(1, []), (2, [])]⟩).blanked.groups.length = 2 := by
   decide +kernel
+
+/-! ## the simulation -/
+
+/-! ### blanking markers inside the loop: a simulation -/
+
+/-- the marked line numbers (1-based) -/
+abbrev Marked := Nat → Bool
+
+def blankLine (mk : Marked) (l : NL) : NL := if mk l.num then ⟨l.num, []⟩ else l
+def mapF (mk : Marked) (f : Fld) : Fld := { f with lines := f.lines.map (blankLine mk) }
+def mapSt (mk : Marked) : St → St
+  | none => none
+  | some (done, cur) => some (done.map (mapF mk), mapF mk cur)
+def mapOut (mk : Marked) (ps : List (List Fld)) : List (List Fld) := ps.map fun g => g.map (mapF mk)
+
+/-- a line is a witness that trailing-blank trimming stops at or after it, in both runs -/
+def Witness (mk : Marked) (l : NL) : Prop := mk l.num = false ∧ isBlank l.val = false
+
+/-- every marked line has a later witness -/
+def Safe (mk : Marked) : List NL → Prop
+  | [] => True
+  | l :: ls => (mk l.num = true → ∃ w ∈ ls, Witness mk w) ∧ Safe mk ls
+
+/-- … except possibly the last line -/
+def SafeBL (mk : Marked) : List NL → Prop
+  | [] => True
+  | [_] => True
+  | l :: m :: rest => (mk l.num = true → ∃ w ∈ m :: rest, Witness mk w) ∧ SafeBL mk (m :: rest)
+
+theorem rstripLines_ne_nil_of_witness (ls : List NL) (w : NL) (hw : w ∈ ls) (hb : isBlank w.val = false) :
+    rstripLines ls ≠ [] := by
+  rcases rstripLines_mem_or_blank ls w hw with h | h
+  · intro e; rw [e] at h; cases h
+  · rw [hb] at h; cases h
+
+theorem blankLine_witness (mk : Marked) (w : NL) (h : Witness mk w) : blankLine mk w = w := by
+  simp [blankLine, h.1]
+
+/-- trimming trailing blank lines commutes with blanking the marked lines -/
+theorem rstripLines_blank (mk : Marked) (ls : List NL) (h : Safe mk ls) :
+    rstripLines (ls.map (blankLine mk)) = (rstripLines ls).map (blankLine mk) := by
+  induction ls with
+  | nil => rfl
+  | cons l ls ih =>
+    obtain ⟨hl, hs⟩ := h
+    have ih := ih hs
+    simp only [List.map_cons, rstripLines, ih]
+    cases hr : rstripLines ls with
+    | nil =>
+      simp only [List.map_nil]
+      by_cases hm : mk l.num = true
+      · obtain ⟨w, hw, hwit⟩ := hl hm
+        exact absurd hr (rstripLines_ne_nil_of_witness ls w hw hwit.2)
+      · have hm' : mk l.num = false := by simpa using hm
+        simp [blankLine, hm']
+        split <;> simp [blankLine, hm']
+    | cons r rs => simp
+
+theorem safe_of_safeBL (mk : Marked) (ls : List NL) (h : SafeBL mk ls)
+    (hlast : ∀ l ∈ ls.getLast?, mk l.num = false) : Safe mk ls := by
+  induction ls with
+  | nil => trivial
+  | cons l ls ih =>
+    cases ls with
+    | nil =>
+      refine ⟨fun hm => ?_, trivial⟩
+      have := hlast l (by simp)
+      rw [this] at hm; cases hm
+    | cons m rest =>
+      obtain ⟨h1, h2⟩ := h
+      exact ⟨h1, ih h2 (fun x hx => hlast x (by simpa [List.getLast?_cons_cons] using hx))⟩
+
+theorem safe_snoc_witness (mk : Marked) (ls : List NL) (y : NL) (h : SafeBL mk ls) (hy : Witness mk y) :
+    Safe mk (ls ++ [y]) := by
+  induction ls with
+  | nil => exact ⟨(fun hm => by rw [hy.1] at hm; cases hm), trivial⟩
+  | cons l ls ih =>
+    cases ls with
+    | nil =>
+      refine ⟨fun _ => ⟨y, by simp, hy⟩, ?_⟩
+      exact ⟨(fun hm => by rw [hy.1] at hm; cases hm), trivial⟩
+    | cons m rest =>
+      obtain ⟨h1, h2⟩ := h
+      refine ⟨fun hm => ?_, ih h2⟩
+      obtain ⟨w, hw, hwit⟩ := h1 hm
+      exact ⟨w, List.mem_append_left _ hw, hwit⟩
+
+theorem safeBL_snoc (mk : Marked) (ls : List NL) (x : NL) (h : Safe mk ls) : SafeBL mk (ls ++ [x]) := by
+  induction ls with
+  | nil => trivial
+  | cons l ls ih =>
+    obtain ⟨h1, h2⟩ := h
+    cases ls with
+    | nil =>
+      refine ⟨fun hm => ?_, trivial⟩
+      obtain ⟨w, hw, _⟩ := h1 hm
+      cases hw
+    | cons m rest =>
+      refine ⟨fun hm => ?_, ih h2⟩
+      obtain ⟨w, hw, hwit⟩ := h1 hm
+      exact ⟨w, List.mem_append_left _ hw, hwit⟩
+
+theorem safeBL_of_safe (mk : Marked) (ls : List NL) (h : Safe mk ls) : SafeBL mk ls := by
+  induction ls with
+  | nil => trivial
+  | cons l ls ih =>
+    cases ls with
+    | nil => trivial
+    | cons m rest => exact ⟨h.1, ih h.2⟩
+
+
+/-! ### the documents: each line with its optional blank replacement -/
+
+abbrev Item := Str × Option Str
+
+def origOf (items : List Item) : List Str := items.map (·.1)
+def blankedOf (items : List Item) : List Str := items.map fun x => x.2.getD x.1
+
+/-- a well-formed document with its marks, from line number `k` on -/
+def ItemsOK (mk : Marked) : Nat → List Item → Prop
+  | _, [] => True
+  | k, x :: rest =>
+    (mk k = x.2.isSome) ∧
+    (x.1 = [] ∨ isDecl x.1 = true ∨ isCont x.1 = true) ∧
+    (∀ r, x.2 = some r → x.1 = marker ∧ isBlank r = true ∧
+        ∃ y rest', rest = y :: rest' ∧ isCont y.1 = true ∧ y.2 = none) ∧
+    (∀ y ∈ rest.head?, isCont y.1 = true → x.1 ≠ []) ∧
+    ItemsOK mk (k + 1) rest
+
+def lastMarked (mk : Marked) (ls : List NL) : Prop := ∃ l ∈ ls.getLast?, mk l.num = true
+
+/-- the state invariant of the simulation -/
+def StInv (mk : Marked) : St → List Item → Prop
+  | none, items => ∀ y ∈ items.head?, isCont y.1 = false
+  | some (done, cur), items =>
+    (∀ f ∈ done, Safe mk f.lines) ∧ SafeBL mk cur.lines ∧
+    (lastMarked mk cur.lines → ∃ y rest, items = y :: rest ∧ isCont y.1 = true ∧ y.2 = none)
+
+theorem clean_map (mk : Marked) (g : List Fld) (h : ∀ f ∈ g, Safe mk f.lines) :
+    clean (g.map (mapF mk)) = (clean g).map (mapF mk) := by
+  induction g with
+  | nil => rfl
+  | cons f fs ih =>
+    simp only [List.map_cons, clean] at ih ⊢
+    rw [ih (fun x hx => h x (by simp [hx]))]
+    simp only [mapF, rstripLines_blank mk f.lines (h f (by simp))]
+
+theorem flush_map (mk : Marked) (st : St) (h : match st with
+      | none => True
+      | some (done, cur) => (∀ f ∈ done, Safe mk f.lines) ∧ Safe mk cur.lines) :
+    flush (mapSt mk st) = mapOut mk (flush st) := by
+  cases st with
+  | none => rfl
+  | some s =>
+    obtain ⟨done, cur⟩ := s
+    simp only [mapSt, flush, mapOut, List.map_cons, List.map_nil]
+    have := clean_map mk (done ++ [cur]) (by
+      intro f hf
+      simp only [List.mem_append, List.mem_singleton] at hf
+      rcases hf with hf | rfl
+      · exact h.1 f hf
+      · exact h.2)
+    simpa using this
+
+theorem mapOut_append (mk : Marked) (a b : List (List Fld)) : mapOut mk (a ++ b) = mapOut mk a ++ mapOut mk b := by
+  simp [mapOut]
+
+theorem marker_facts : isCont marker = true ∧ isBlank marker = false ∧ rstrip marker = marker ∧ isDecl marker = false := by
+  decide
+
+theorem rstrip_blank_nil (r : Str) (h : isBlank r = true) : rstrip r = [] := (rstrip_eq_nil_iff r).mpr h
+
+theorem not_lastMarked_of (mk : Marked) (cur : Fld) (items : List Item)
+    (h : lastMarked mk cur.lines → ∃ y rest, items = y :: rest ∧ isCont y.1 = true ∧ y.2 = none)
+    (hhead : ∀ y ∈ items.head?, isCont y.1 = false ∨ y.2.isSome = true) :
+    ∀ l ∈ cur.lines.getLast?, mk l.num = false := by
+  intro l hl
+  cases hm : mk l.num with
+  | false => rfl
+  | true =>
+    obtain ⟨y, rest, e, hc, hn⟩ := h ⟨l, hl, hm⟩
+    have := hhead y (by rw [e]; simp)
+    rcases this with h' | h'
+    · rw [hc] at h'; cases h'
+    · rw [hn] at h'; cases h'
+
+
+theorem space_not_letter : ∀ n ∈ Generated.spaceCodes, isLetterIC (Char.ofNat n) = false := by decide
+
+theorem letter_not_space {c : Char} (h : isLetterIC c = true) : isSpace c = false := by
+  cases hs : isSpace c with
+  | false => rfl
+  | true =>
+    have hm : c.toNat ∈ Generated.spaceCodes := by simpa [isSpace] using hs
+    have := space_not_letter _ hm
+    rw [Char.ofNat_toNat] at this
+    rw [this] at h; cases h
+
+theorem mapSt_addLine (mk : Marked) (s : List Fld × Fld) (l : NL) :
+    mapSt mk (some (addLine s l)) = some (addLine ((s.1.map (mapF mk)), mapF mk s.2) (blankLine mk l)) := by
+  obtain ⟨done, cur⟩ := s
+  simp [mapSt, addLine, mapF]
+
+theorem fromLine_unmarked (mk : Marked) (l : NL) (h : mk l.num = false) : mapF mk (fromLine l) = fromLine l := by
+  simp [mapF, fromLine, blankLine, h]
+
+theorem getLast?_snoc {α} (l : List α) (x : α) : (l ++ [x]).getLast? = some x := List.getLast?_concat
+
+/-- **the simulation**: running the loop on the blanked document gives the run on the original with
+the marked lines blanked -/
+theorem sim (mk : Marked) (items : List Item) (k : Nat) (st : St) (hok : ItemsOK mk k items)
+    (hinv : StInv mk st items) :
+    go (mapSt mk st) (numberFrom k (blankedOf items)) = mapOut mk (go st (numberFrom k (origOf items))) := by
+  induction items generalizing k st with
+  | nil =>
+    simp only [blankedOf, origOf, List.map_nil, numberFrom, go]
+    apply flush_map
+    cases st with
+    | none => trivial
+    | some s =>
+      obtain ⟨done, cur⟩ := s
+      obtain ⟨h1, h2, h3⟩ := hinv
+      refine ⟨h1, safe_of_safeBL mk _ h2 ?_⟩
+      exact not_lastMarked_of mk cur [] h3 (by intro y hy; cases hy)
+  | cons x rest ih =>
+    obtain ⟨hmk, hkind, hmark, hnext, hrest⟩ := hok
+    obtain ⟨xo, xr⟩ := x
+    simp only [blankedOf, origOf, List.map_cons, numberFrom]
+    have ih' := fun st' (h : StInv mk st' rest) => ih (k + 1) st' hrest h
+    simp only [blankedOf, origOf] at ih'
+    cases xr with
+    | some r =>
+      -- a marked line: a marker in the original, a blank line in the blanked document
+      obtain ⟨hxo, hrb, y, rest', hre, hyc, hyn⟩ := hmark r rfl
+      subst hxo
+      have hmk' : mk k = true := by simpa using hmk
+      cases st with
+      | none =>
+        have := hinv (marker, some r) (by simp)
+        simp only at this
+        rw [marker_facts.1] at this; cases this
+      | some s =>
+        obtain ⟨done, cur⟩ := s
+        obtain ⟨h1, h2, h3⟩ := hinv
+        simp only [Option.getD_some]
+        -- original: a continuation line
+        rw [go_cont_step (done, cur) ⟨k, marker⟩ _ marker_facts.2.1 marker_facts.1]
+        -- blanked: a blank line followed by a continuation line
+        subst hre
+        simp only [List.map_cons, numberFrom, hyn, Option.getD_none]
+        have habs := Props.C12.blank_before_cont_absorbed ((done.map (mapF mk)), mapF mk cur) ⟨k, r⟩ ⟨k + 1, y.1⟩
+          (numberFrom (k + 1 + 1) (rest'.map fun x => x.2.getD x.1)) hrb hyc
+        simp only [mapSt]
+        rw [habs]
+        have hst : (some (addLine (done.map (mapF mk), mapF mk cur) ⟨k, rstrip r⟩) : St) =
+            mapSt mk (some (addLine (done, cur) ⟨k, rstrip marker⟩)) := by
+          rw [mapSt_addLine]
+          simp [blankLine, hmk', rstrip_blank_nil r hrb]
+        rw [hst]
+        have := ih' (some (addLine (done, cur) ⟨k, rstrip marker⟩)) (by
+          simp only [addLine, StInv]
+          have hlast : ∀ l ∈ cur.lines.getLast?, mk l.num = false :=
+            not_lastMarked_of mk cur _ h3 (by intro z hz; simp at hz; subst hz; exact Or.inr rfl)
+          refine ⟨h1, safeBL_snoc mk _ _ (safe_of_safeBL mk _ h2 hlast), ?_⟩
+          intro _
+          exact ⟨y, rest', rfl, hyc, hyn⟩)
+        simpa [numberFrom, hyn] using this
+    | none =>
+      have hmk' : mk k = false := by simpa using hmk
+      simp only [Option.getD_none]
+      have hhead_unmarked_cont : ∀ z ∈ ((xo, (none : Option Str)) :: rest).head?, isCont z.1 = false ∨ z.2.isSome = true →
+          isCont xo = false := by
+        intro z hz hh; simp at hz; subst hz; simpa using hh
+      rcases hkind with hk | hk | hk
+      · -- an empty line
+        subst hk
+        have hblank : isBlank ([] : Str) = true := rfl
+        have hnc : ∀ y ∈ rest.head?, isCont y.1 = false := by
+          intro y hy
+          cases hc : isCont y.1 with
+          | false => rfl
+          | true => exact absurd rfl (hnext y hy hc)
+        -- the next line is the same in both documents: not marked (a marked line is a continuation line)
+        have hnextB : ∀ n ∈ (numberFrom (k + 1) (rest.map fun x => x.2.getD x.1)).head?,
+            isDecl n.val = true ∨ isBlank n.val = true := by
+          intro n hn
+          cases rest with
+          | nil => simp [numberFrom] at hn
+          | cons y rest' =>
+            simp only [List.map_cons, numberFrom, List.head?_cons, Option.mem_def, Option.some.injEq] at hn
+            subst hn
+            obtain ⟨hymk, hykind, hymark, _, _⟩ := hrest
+            cases hy2 : y.2 with
+            | some r' =>
+              have := (hymark r' hy2).1
+              have hc := hnc y (by simp)
+              rw [this, marker_facts.1] at hc; cases hc
+            | none =>
+              simp only [Option.getD_none]
+              have hc := hnc y (by simp)
+              rcases hykind with h | h | h
+              · rw [h]; exact Or.inr rfl
+              · exact Or.inl h
+              · rw [hc] at h; cases h
+        have hnextA : ∀ n ∈ (numberFrom (k + 1) (rest.map (·.1))).head?,
+            isDecl n.val = true ∨ isBlank n.val = true := by
+          intro n hn
+          cases rest with
+          | nil => simp [numberFrom] at hn
+          | cons y rest' =>
+            simp only [List.map_cons, numberFrom, List.head?_cons, Option.mem_def, Option.some.injEq] at hn
+            subst hn
+            obtain ⟨_, hykind, _, _, _⟩ := hrest
+            have hc := hnc y (by simp)
+            rcases hykind with h | h | h
+            · rw [h]; exact Or.inr rfl
+            · exact Or.inl h
+            · rw [hc] at h; cases h
+        cases st with
+        | none =>
+          simp only [mapSt]
+          rw [go_blank_none _ _ hblank, go_blank_none _ _ hblank]
+          exact ih' none hnc
+        | some s =>
+          obtain ⟨done, cur⟩ := s
+          obtain ⟨h1, h2, h3⟩ := hinv
+          simp only [mapSt]
+          rw [go_blank_break _ _ _ hblank hnextB, go_blank_break _ _ _ hblank hnextA, mapOut_append]
+          have hlast : ∀ l ∈ cur.lines.getLast?, mk l.num = false :=
+            not_lastMarked_of mk cur _ h3 (by intro z hz; simp at hz; subst hz; exact Or.inl rfl)
+          have hfl := flush_map mk (some (done, cur)) ⟨h1, safe_of_safeBL mk _ h2 hlast⟩
+          simp only [mapSt] at hfl
+          rw [hfl]
+          congr 1
+          exact ih' none hnc
+      · -- a declaration line
+        have hnb : isBlank xo = false := by
+          cases xo with
+          | nil => simp [isDecl, headP] at hk
+          | cons c cs =>
+            simp only [isDecl, headP, Bool.and_eq_true] at hk
+            simp [isBlank, letter_not_space hk.1]
+        have hnc : isCont xo = false := by
+          cases hc : isCont xo with
+          | false => rfl
+          | true => have := cont_not_decl xo hc; rw [hk] at this; cases this
+        have hfl : mapF mk (fromLine ⟨k, xo⟩) = fromLine ⟨k, xo⟩ := fromLine_unmarked mk _ hmk'
+        have hcurinv : StInv mk (some ((match st with | none => [] | some s => s.1 ++ [s.2]), fromLine ⟨k, xo⟩)) rest := by
+          have hnew : SafeBL mk (fromLine ⟨k, xo⟩).lines ∧ ¬ lastMarked mk (fromLine ⟨k, xo⟩).lines := by
+            refine ⟨by simp [fromLine, SafeBL], ?_⟩
+            rintro ⟨l, hl, hm⟩
+            simp [fromLine] at hl
+            subst hl
+            simp only at hm
+            rw [hmk'] at hm; cases hm
+          cases st with
+          | none => exact ⟨(by intro f hf; cases hf), hnew.1, fun h => absurd h hnew.2⟩
+          | some s =>
+            obtain ⟨done, cur⟩ := s
+            obtain ⟨h1, h2, h3⟩ := hinv
+            have hlast : ∀ l ∈ cur.lines.getLast?, mk l.num = false :=
+              not_lastMarked_of mk cur _ h3 (by intro z hz; simp at hz; subst hz; exact Or.inl hnc)
+            refine ⟨?_, hnew.1, fun h => absurd h hnew.2⟩
+            intro f hf
+            simp only [List.mem_append, List.mem_singleton] at hf
+            rcases hf with hf | rfl
+            · exact h1 f hf
+            · exact safe_of_safeBL mk _ h2 hlast
+        cases st with
+        | none =>
+          simp only [mapSt]
+          rw [go_decl_step_none _ _ hnb hk, go_decl_step_none _ _ hnb hk]
+          have := ih' _ hcurinv
+          simpa [mapSt, hfl] using this
+        | some s =>
+          obtain ⟨done, cur⟩ := s
+          simp only [mapSt]
+          rw [go_decl_step_open _ _ _ hnb hnc hk, go_decl_step_open _ _ _ hnb hnc hk]
+          have := ih' _ hcurinv
+          simpa [mapSt, hfl] using this
+      · -- an unmarked continuation line
+        have hnb : isBlank xo = false := cont_not_blank xo hk
+        cases st with
+        | none =>
+          have := hinv (xo, none) (by simp)
+          simp only at this
+          rw [hk] at this; cases this
+        | some s =>
+          obtain ⟨done, cur⟩ := s
+          obtain ⟨h1, h2, h3⟩ := hinv
+          simp only [mapSt]
+          rw [go_cont_step _ ⟨k, xo⟩ _ hnb hk, go_cont_step _ ⟨k, xo⟩ _ hnb hk]
+          have hwit : Witness mk ⟨k, rstrip xo⟩ := ⟨hmk', isBlank_rstrip hnb⟩
+          have hst : (some (addLine (done.map (mapF mk), mapF mk cur) ⟨k, rstrip xo⟩) : St) =
+              mapSt mk (some (addLine (done, cur) ⟨k, rstrip xo⟩)) := by
+            rw [mapSt_addLine]; simp [blankLine, hmk']
+          rw [hst]
+          apply ih'
+          simp only [addLine, StInv]
+          have hs := safe_snoc_witness mk cur.lines ⟨k, rstrip xo⟩ h2 hwit
+          refine ⟨h1, safeBL_of_safe mk _ hs, ?_⟩
+          rintro ⟨l, hl, hm⟩
+          rw [getLast?_snoc] at hl
+          simp at hl; subst hl
+          simp only at hm
+          rw [hmk'] at hm; cases hm
+
+
+/-! ### from the property's input to the simulation -/
+
+def mkOf (i : Input) : Marked := fun n => (i.marks.lookup (n - 1)).isSome && decide (n > 0)
+
+def itemsFrom (i : Input) : Nat → List Str → List Item
+  | _, [] => []
+  | j, l :: ls => (l, i.marks.lookup j) :: itemsFrom i (j + 1) ls
+
+theorem origOf_itemsFrom (i : Input) (j : Nat) (ls : List Str) : origOf (itemsFrom i j ls) = ls := by
+  induction ls generalizing j with
+  | nil => rfl
+  | cons l ls ih => simp only [itemsFrom, origOf, List.map_cons] at ih ⊢; rw [ih]
+
+theorem lookup_mem' (l : List (Nat × Str)) (k : Nat) (v : Str) (h : l.lookup k = some v) : (k, v) ∈ l := by
+  induction l with
+  | nil => simp [List.lookup] at h
+  | cons a as ih =>
+    obtain ⟨a1, a2⟩ := a
+    simp only [List.lookup] at h
+    by_cases e : k = a1
+    · subst e; simp at h; subst h; simp
+    · have hb : (k == a1) = false := by simpa using e
+      simp only [hb] at h
+      exact List.mem_cons_of_mem _ (ih h)
+
+theorem drop_cons_facts (l : List Str) (j : Nat) (x : Str) (xs : List Str) (h : l.drop j = x :: xs) :
+    j < l.length ∧ l.getD j [] = x ∧ l.drop (j + 1) = xs ∧ x ∈ l := by
+  have hlt : j < l.length := by
+    apply Nat.lt_of_not_le
+    intro hge
+    have : l.drop j = [] := List.drop_eq_nil_of_le hge
+    rw [this] at h; cases h
+  have hget : l[j]? = some x := by
+    have := congrArg List.head? h
+    simpa [List.head?_drop] using this
+  refine ⟨hlt, by simp [List.getD, hget], ?_, List.mem_of_getElem? hget⟩
+  have := congrArg List.tail h
+  simpa [List.tail_drop] using this
+
+theorem itemsOK_of_wf (i : Input) (h : wf i = true) (j : Nat) (ls : List Str) (hd : i.lines.drop j = ls) :
+    ItemsOK (mkOf i) (j + 1) (itemsFrom i j ls) := by
+  simp only [wf, wfDoc, wfMarks, Bool.and_eq_true, List.all_eq_true, List.mem_range] at h
+  obtain ⟨⟨hlines, hprev⟩, hmarks⟩ := h
+  induction ls generalizing j with
+  | nil => trivial
+  | cons l ls ih =>
+    obtain ⟨hjlt, hget, hd', hlmem⟩ := drop_cons_facts i.lines j l ls hd
+    refine ⟨?_, ?_, ?_, ?_, ih (j + 1) hd'⟩
+    · simp [mkOf]
+    · have := (hlines l hlmem).2
+      simp only [Bool.or_eq_true, List.isEmpty_iff] at this
+      rcases this with (h | h) | h
+      · exact Or.inl h
+      · exact Or.inr (Or.inl h)
+      · exact Or.inr (Or.inr h)
+    · intro r hr
+      have hm := hmarks (j, r) (lookup_mem' _ _ _ hr)
+      simp only [Bool.and_eq_true, beq_iff_eq, decide_eq_true_eq, Option.isNone_iff_eq_none] at hm
+      obtain ⟨⟨⟨⟨⟨⟨h1, h2⟩, _⟩, h4⟩, h5⟩, h6⟩, _⟩ := hm
+      refine ⟨by rw [← hget]; exact h1, h2, ?_⟩
+      cases ls with
+      | nil =>
+        have := congrArg List.length hd'
+        simp at this
+        omega
+      | cons y rest' =>
+        obtain ⟨_, hgy, _, _⟩ := drop_cons_facts i.lines (j + 1) y rest' hd'
+        exact ⟨(y, i.marks.lookup (j + 1)), itemsFrom i (j + 1 + 1) rest', rfl, by rw [← hgy]; exact h5, h6⟩
+    · intro y hy hc
+      cases ls with
+      | nil => simp [itemsFrom] at hy
+      | cons y' rest' =>
+        simp only [itemsFrom, List.head?_cons, Option.mem_def, Option.some.injEq] at hy
+        subst hy
+        simp only at hc
+        obtain ⟨hj1, hgy, _, _⟩ := drop_cons_facts i.lines (j + 1) y' rest' hd'
+        have := hprev (j + 1) hj1
+        simp only [Bool.or_eq_true, Bool.not_eq_true', Bool.and_eq_true, decide_eq_true_eq, List.isEmpty_eq_false_iff,
+          Nat.add_sub_cancel] at this
+        rcases this with h' | h'
+        · rw [hgy, hc] at h'; cases h'
+        · rw [hget] at h'; exact h'.2
+
+
+theorem blankedOf_itemsFrom (i : Input) (j : Nat) (ls : List Str) (hd : i.lines.drop j = ls) :
+    blankedOf (itemsFrom i j ls) =
+      (List.range' j ls.length).map fun j => match i.marks.lookup j with | some r => r | none => i.lines.getD j [] := by
+  induction ls generalizing j with
+  | nil => rfl
+  | cons l ls ih =>
+    obtain ⟨_, hget, hd', _⟩ := drop_cons_facts i.lines j l ls hd
+    simp only [itemsFrom, blankedOf, List.map_cons, List.length_cons, List.range'_succ] at ih ⊢
+    rw [ih (j + 1) hd', hget]
+    cases i.marks.lookup j <;> rfl
+
+theorem blankedLines_eq (i : Input) : blankedLines i = blankedOf (itemsFrom i 0 i.lines) := by
+  rw [blankedOf_itemsFrom i 0 i.lines rfl]
+  unfold blankedLines
+  rw [List.range_eq_range']
+  rfl
+
+theorem model_render (ls : List Str) (h : ∀ l ∈ ls, NoT l) :
+    Props.C05.model (render ls) = Props.C05.obsOf (go none (numberFrom 1 ls)) := by
+  unfold Props.C05.model parse linesFromText render
+  have := splitLinesAscii_seps ls [] h
+  simp only [List.append_nil] at this
+  rw [this]
+  simp [splitLinesAscii, splitLinesAsciiAux]
+
+theorem obsOf_mapOut (i : Input) (ps : List (List Fld)) :
+    Props.C05.obsOf (mapOut (mkOf i) ps) = expectedGroups i (Props.C05.obsOf ps) := by
+  simp only [Props.C05.obsOf, mapOut, expectedGroups, List.map_map]
+  apply List.map_congr_left
+  intro g _
+  simp only [Function.comp, List.map_map]
+  apply List.map_congr_left
+  intro f _
+  simp only [Function.comp, mapF, List.map_map, Prod.mk.injEq, true_and]
+  apply List.map_congr_left
+  intro l _
+  simp only [Function.comp, blankLine, mkOf]
+  by_cases hc : ((List.lookup (l.num - 1) i.marks).isSome && decide (l.num > 0)) = true
+  · simp [hc]
+  · simp [hc]
+
+/-- **C12, line-tracking parser** — in any well-formed document, replacing any set of ` .` markers that
+are followed by a continuation line by empty or white-space-only lines changes nothing in what the
+line-tracking parser reports but the line text of the replaced markers: same paragraphs, same fields,
+same line numbers, same other lines. -/
+theorem groups_sound (i : Input) (h : wf i = true) :
+    (model i).blanked.groups = expectedGroups i (model i).orig.groups := by
+  have hwf := h
+  simp only [wf, wfDoc, wfMarks, Bool.and_eq_true, List.all_eq_true, List.mem_range] at h
+  obtain ⟨⟨hlines, _⟩, hmarks⟩ := h
+  have hnoT : ∀ s : Str, noTerminator s = true → NoT s := by
+    intro s hs
+    simp only [noTerminator, Bool.and_eq_true, Bool.not_eq_true'] at hs
+    exact ⟨by simpa using hs.1, by simpa using hs.2⟩
+  have hA : ∀ l ∈ i.lines, NoT l := fun l hl => hnoT l (hlines l hl).1
+  have hB : ∀ l ∈ blankedLines i, NoT l := by
+    intro l hl
+    simp only [blankedLines, List.mem_map, List.mem_range] at hl
+    obtain ⟨j, hj, rfl⟩ := hl
+    cases hlk : i.marks.lookup j with
+    | none =>
+      simp only
+      have hm : i.lines.getD j [] ∈ i.lines := by
+        have : i.lines[j]? = some (i.lines.getD j []) := by simp [List.getD, List.getElem?_eq_getElem hj]
+        exact List.mem_of_getElem? this
+      exact hA _ hm
+    | some r =>
+      simp only
+      have := hmarks (j, r) (lookup_mem' _ _ _ hlk)
+      simp only [Bool.and_eq_true] at this
+      exact hnoT r this.1.1.1.1.2
+  simp only [model, side]
+  rw [model_render _ hA, model_render _ hB, blankedLines_eq]
+  have hsim := sim (mkOf i) (itemsFrom i 0 i.lines) 1 none (itemsOK_of_wf i hwf 0 i.lines rfl) (by
+    intro y hy
+    -- the first line is not a continuation line
+    cases hl : i.lines with
+    | nil => rw [hl] at hy; simp [itemsFrom] at hy
+    | cons l ls =>
+      rw [hl] at hy
+      simp only [itemsFrom, List.head?_cons, Option.mem_def, Option.some.injEq] at hy
+      subst hy
+      simp only
+      have hw2 := hwf
+      simp only [wf, wfDoc, Bool.and_eq_true, List.all_eq_true, List.mem_range] at hw2
+      have := hw2.1.2 0 (by rw [hl]; simp)
+      simp only [hl, List.getD_cons_zero, Bool.or_eq_true, Bool.not_eq_true', Bool.and_eq_true, decide_eq_true_eq] at this
+      rcases this with h' | h'
+      · exact h'
+      · omega)
+  simp only [mapSt, origOf_itemsFrom] at hsim
+  rw [hsim, obsOf_mapOut]
+
 
 end Props.C12
